@@ -19,3 +19,5 @@ def run(rep):
     lr.rule_doc_escapes(rep, "C12.doc")
     br.rule_rect(rep, "C12.rect")
     mr.rule_token_table(rep, "C12.row", "C12.rowcol")
+    # a row reaches the splitter as one physical line: lines end at line feeds only
+    lr.rule_scanner(rep, "C12.line", "C12.scan")
